@@ -46,6 +46,7 @@ def plan(tier, seed):
         shards.append({"kind": "col6rand", "n": 100000, "sub": 0})
         shards.append({"kind": "col6rand", "n": 100000, "sub": 1})
         shards.append({"kind": "col6bytes"})
+        shards.append({"kind": "col6families", "n": 30000})
         shards.append({"kind": "insitu", "n": 10})
     else:
         for hi in range(16):
@@ -54,6 +55,8 @@ def plan(tier, seed):
         for sub in range(10):
             shards.append({"kind": "col6rand", "n": 100000, "sub": sub})
         shards.append({"kind": "col6bytes"})
+        for fam in ("decimal", "float-looking", "leading-zeros"):
+            shards.append({"kind": "col6families", "n": 0, "family": fam})
         for sub in range(4):
             shards.append({"kind": "insitu", "n": 25, "sub": sub})
     return shards
@@ -121,7 +124,7 @@ def worker(ctx, shard):
             for v in mon.violations:
                 ctx.judge("names", VIOLATED, {"fn": v["fn"], "arg": v["arg"]}, finding=v, key="int2name-mismatch")
             ctx.bulk_held("names", n - mon.n_violations)
-    elif kind in ("col3", "col6rand", "col6bytes", "col6all"):
+    elif kind in ("col3", "col6rand", "col6bytes", "col6all", "col6families"):
         if kind == "col3":
             codes = (
                 p + a + b + c
@@ -150,6 +153,35 @@ def worker(ctx, shard):
                             for p in ("", "#"):
                                 yield p + "".join(parts)
             codes = gen()
+            stratum = "col6"
+        elif kind == "col6families":
+            # six-digit codes that look like something else to a careless parser, with and without '#':
+            # decimal-only ("123456"), float-looking ("1e1000", "12e345"), leading zeros ("000abc")
+            def fam_all(fam):
+                if fam == "decimal":
+                    return ("%06d" % v for v in range(10 ** 6))
+                if fam == "float-looking":
+                    return ("%0*d%s%0*d" % (p, a, e, 5 - p, b) for p in range(1, 5) for e in "eE" for a in range(10 ** p) for b in range(0, 10 ** (5 - p), 7 if p < 3 else 1))
+                return ("%s%0*x" % ("0" * z, 6 - z, v) for z in (3, 4, 5) for v in range(16 ** (6 - z)))
+
+            if shard.get("family"):
+                base = fam_all(shard["family"])
+                codes = (p + c for c in base for p in ("", "#"))
+            else:
+                rng = ctx.rng("families")
+                def gen():
+                    for _ in range(shard["n"]):
+                        r = rng.random()
+                        if r < 0.4:
+                            c = "%06d" % rng.randrange(10 ** 6)
+                        elif r < 0.7:
+                            p = rng.randrange(1, 5)
+                            c = "%0*d%s%0*d" % (p, rng.randrange(10 ** p), rng.choice("eE"), 5 - p, rng.randrange(10 ** (5 - p)))
+                        else:
+                            z = rng.choice([3, 4, 5])
+                            c = "0" * z + "".join(rng.choice(N.HEXDIGITS) for _ in range(6 - z))
+                        yield c if rng.random() < 0.6 else "#" + c
+                codes = gen()
             stratum = "col6"
         else:
             first = shard["first"]
